@@ -143,7 +143,11 @@ pub fn noop_waker() -> std::task::Waker {
     unsafe { Waker::from_raw(RawWaker::new(std::ptr::null(), &VT)) }
 }
 
-fn hash_of<T: std::hash::Hash + ?Sized>(t: &T) -> u64 {
+fn same2(sl: &[Tr], want: &[(i64, i64)]) -> bool {
+    sl.len() == want.len() && sl.iter().zip(want.iter()).all(|(t, w)| (t.id, t.val) == *w)
+}
+
+pub fn hash_of<T: std::hash::Hash + ?Sized>(t: &T) -> u64 {
     use std::hash::Hasher;
     let mut h = std::collections::hash_map::DefaultHasher::new();
     t.hash(&mut h);
@@ -241,8 +245,12 @@ pub enum COp {
     CloneVec { v: usize, w: usize },
     /// into_iter(): take `front`/`back` items, drop the rest with the iterator
     IntoIter { v: usize, front: usize, back: usize },
-    IntoBumpSlice { v: usize },
-    IntoBoxedSlice { v: usize, b: usize },
+    IntoBumpSlice { v: usize, #[serde(default)] mutable: bool },
+    IntoBoxedSlice { v: usize, b: usize, #[serde(default)] via_from: bool },
+    /// every read-only view / comparison (against vector w) / hashing / formatting of the Vec agrees with the same
+    /// on its slice; mutable views (as_mut_slice, DerefMut, IndexMut, AsMut, BorrowMut, &mut IntoIterator) reach
+    /// the same elements
+    VecViews { v: usize, w: usize },
     Get { v: usize, i: i64 },
     DropVec { v: usize },
     BoxNew { b: usize, val: i64 },
@@ -852,19 +860,85 @@ macro_rules! interp {
                                 }
                             });
                         }
-                        COp::IntoBumpSlice { v } => {
-                            let ev = base("into_bump_slice");
+                        COp::VecViews { v, w } => {
+                            let ev = base("vec_views");
+                            self.call(ev, v as i64, -1, |s, ev| {
+                                let _g = rec::pause();
+                                let mut bad: i64 = 0;
+                                let mut chk = |i: u32, ok: bool| {
+                                    if !ok {
+                                        bad |= 1 << i;
+                                    }
+                                };
+                                let mut x = s.slot(v).take();
+                                let y = if w != v { s.slot(w).take() } else { None };
+                                if let Some(x) = x.as_mut() {
+                                    use std::borrow::{Borrow, BorrowMut};
+                                    let want: Vec<(i64, i64)> = x.iter().map(|t| (t.id, t.val)).collect();
+                                    let same = |sl: &[Tr]| sl.len() == want.len() && sl.iter().zip(want.iter()).all(|(t, w)| (t.id, t.val) == *w);
+                                    {
+                                        let xs: &[Tr] = &x[..];
+                                        chk(0, x.len() == want.len() && x.is_empty() == want.is_empty() && same(xs));
+                                        chk(1, same(x.as_slice()) && same(&**x) && same(AsRef::<[Tr]>::as_ref(&*x)) && same(Borrow::<[Tr]>::borrow(&*x)));
+                                        chk(2, x.as_ptr() == xs.as_ptr() && (want.is_empty() || &x[0] as *const Tr == xs.as_ptr()));
+                                        chk(3, hash_of(&*x) == hash_of(xs));
+                                        chk(4, format!("{:?}", &*x) == format!("{:?}", xs));
+                                        chk(5, (&*x).into_iter().map(|t| t.id).eq(want.iter().map(|w| w.0)));
+                                        chk(6, same(&x[..]) && (want.len() < 2 || same2(&x[1..], &want[1..])) && (want.is_empty() || x[want.len() - 1].id == want[want.len() - 1].0));
+                                        if let Some(y) = y.as_ref() {
+                                            let ys: &[Tr] = &y[..];
+                                            chk(7, (*x == *y) == (xs == ys) && (*x != *y) == (xs != ys));
+                                            chk(8, PartialOrd::partial_cmp(&*x, y) == xs.partial_cmp(ys) && Ord::cmp(&*x, y) == xs.cmp(ys));
+                                            chk(9, (*x < *y) == (xs < ys) && (*x <= *y) == (xs <= ys) && (*x > *y) == (xs > ys) && (*x >= *y) == (xs >= ys));
+                                            chk(10, (*x == ys) == (xs == ys) && (*x != ys) == (xs != ys));
+                                            chk(11, (*x == &ys[..]) == (xs == ys));
+                                        }
+                                    }
+                                    // mutable views: reverse the elements through one view, check through the next, ... (an even number of times)
+                                    let rev: Vec<i64> = want.iter().rev().map(|w| w.0).collect();
+                                    let fwd: Vec<i64> = want.iter().map(|w| w.0).collect();
+                                    let idsq = |sl: &[Tr]| sl.iter().map(|t| t.id).collect::<Vec<i64>>();
+                                    x.as_mut_slice().reverse();
+                                    chk(12, idsq(&x[..]) == rev);
+                                    { let m: &mut [Tr] = &mut **x; m.reverse(); }
+                                    chk(13, idsq(&x[..]) == fwd);
+                                    { let m: &mut [Tr] = AsMut::<[Tr]>::as_mut(&mut *x); m.reverse(); }
+                                    chk(14, idsq(&x[..]) == rev);
+                                    { let m: &mut [Tr] = BorrowMut::<[Tr]>::borrow_mut(&mut *x); m.reverse(); }
+                                    chk(15, idsq(&x[..]) == fwd);
+                                    { let m: &mut [Tr] = &mut x[..]; m.reverse(); }
+                                    chk(16, idsq(&x[..]) == rev);
+                                    { let n = x.len(); let p = x.as_mut_ptr(); for i in 0..n / 2 { unsafe { std::ptr::swap(p.add(i), p.add(n - 1 - i)) } } }
+                                    chk(17, idsq(&x[..]) == fwd);
+                                    chk(18, (&mut *x).into_iter().map(|t| t.id).eq(fwd.iter().cloned()));
+                                    if !want.is_empty() {
+                                        let last = want.len() - 1;
+                                        let t: &mut Tr = &mut x[last];
+                                        chk(19, t.id == want[last].0);
+                                    }
+                                }
+                                *s.slot(v) = x;
+                                if w != v {
+                                    *s.slot(w) = y;
+                                }
+                                ev.retn = bad;
+                            });
+                        }
+                        COp::IntoBumpSlice { v, mutable } => {
+                            let mut ev = base("into_bump_slice");
+                            ev.flag = mutable as i64;
                             self.call(ev, v as i64, -1, |s, ev| {
                                 if let Some(x) = s.slot(v).take() {
-                                    let sl: &[Tr] = into_slice!($modname, x);
+                                    let sl: &[Tr] = into_slice!($modname, x, mutable);
                                     ev.leaked = sl.iter().map(|t| t.id).collect();
                                     ev.ret = ids(sl.iter());
                                 }
                             });
                         }
-                        COp::IntoBoxedSlice { v, b } => {
+                        COp::IntoBoxedSlice { v, b, via_from } => {
                             let mut ev = base("into_boxed_slice");
                             ev.a = b as i64;
+                            ev.flag = via_from as i64;
                             if self.slot(v).is_none() {
                                 return;
                             }
@@ -872,7 +946,7 @@ macro_rules! interp {
                                 let old = s.bsslot(b).take();
                                 drop(old);
                                 if let Some(x) = s.slot(v).take() {
-                                    let bx: $BS = x.into_boxed_slice();
+                                    let bx: $BS = if via_from { <$BS>::from(x) } else { x.into_boxed_slice() };
                                     ev.ret = ids(bx.iter());
                                     *s.bsslot(b) = Some(bx);
                                 }
@@ -1229,8 +1303,8 @@ macro_rules! finish_filter {
     (stdi, $df:expr) => { $df.for_each(drop) };
 }
 macro_rules! into_slice {
-    (bumpi, $x:expr) => { $x.into_bump_slice() };
-    (stdi, $x:expr) => { $x.leak() };
+    (bumpi, $x:expr, $m:expr) => { if $m { &*$x.into_bump_slice_mut() } else { $x.into_bump_slice() } };
+    (stdi, $x:expr, $m:expr) => { &*$x.leak() };
 }
 macro_rules! box_new {
     (bumpi, $bump:expr, $t:expr) => { bumpalo::boxed::Box::new_in($t, $bump) };
